@@ -119,6 +119,9 @@ def build_pairs():
         for pl in ("", "d"):
             pairs.append(("sum", pl + b, "+"))
             pairs.append(("sum", pl + b, "-"))
+            # the right operand written with the other prefix (20 dBm + 2 Bm): converted before the powers are added
+            pairs.append(("sum2", pl + b, "+"))
+            pairs.append(("sum2", pl + b, "-"))
     # de-duplicate, keep order
     seen, out = set(), []
     for p in pairs:
@@ -142,7 +145,7 @@ def pair_case(draw):
     kind = PAIRS[i][0]
     if kind == "temp":
         vals = draw(st.lists(temps, min_size=1, max_size=3))
-    elif kind == "sum":
+    elif kind in ("sum", "sum2"):
         n = draw(st.sampled_from([1, 1, 2, 3]))
         av, bv = [], []
         for _ in range(n):
@@ -154,7 +157,9 @@ def pair_case(draw):
         vals = [av[0], bv[0]] if n == 1 else [av, bv]       # lists = array-valued levels
     else:
         vals = draw(st.lists(levels, min_size=1, max_size=3))
-    return {"pair": list(PAIRS[i]), "vals": vals}
+    # an uncertainty attached to the quantity must not move the converted value
+    err = draw(st.sampled_from([None, None, None, 0.01, 0.5, 3.0])) if kind not in ("sum", "sum2") else None
+    return {"pair": list(PAIRS[i]), "vals": vals, "err": err}
 
 
 def strategies(tier):
@@ -167,7 +172,7 @@ def exhaustive(tier, shard, nshards):
             continue
         if p[0] == "temp":
             yield {"pair": list(p), "vals": LADDER_T}
-        elif p[0] == "sum":
+        elif p[0] in ("sum", "sum2"):
             for a, b in ((1.0, 2.0), (87.0, 83.0), (0.0, -10.0), (30.0, 29.5), (-120.0, -121.0)):
                 if p[2] == "+" or a > b:
                     yield {"pair": list(p), "vals": [a, b]}
@@ -186,10 +191,10 @@ def lclose(a, b):
     return close(a, b, 1e-9, 1e-9)
 
 
-def _conv(x, u, w):
+def _conv(x, u, w, err=None):
     """value(w) asked twice on ONE object (a query must not disturb the next one), then to(w) on that object"""
     from scinumtools.units import Quantity
-    q = Quantity(x, u)
+    q = Quantity(x, u, abse=err) if err else Quantity(x, u)
     first = q.value(w)
     second = q.value(w)
     if not (np.all(np.asarray(first) == np.asarray(second)) or (first != first and second != second)):
@@ -221,7 +226,7 @@ def _check(case, v):
             exp_k = t
             tol = 1e-11 * max(t, 500.0)
             try:
-                got, q = _conv(x, u, w)
+                got, q = _conv(x, u, w, case.get("err"))
             except RepeatMismatch as e:
                 return v.fail("value-repeat", str(e))
             except Exception as e:
@@ -244,31 +249,38 @@ def _check(case, v):
         if u == w:
             v.label("identity")
         return
-    if kind == "sum":
+    if kind in ("sum", "sum2"):
         a, b = case["vals"]
         op = w
+        u2 = u if kind == "sum" else (u[1:] if u.startswith("d") else "d" + u)
+        if kind == "sum2":
+            # b was drawn as a level in unit u: re-express it in the other prefix
+            scale = 10.0 if u2.startswith("d") else 0.1
+            b = [y * scale for y in b] if isinstance(b, list) else b * scale
         al, bl = (a, b) if isinstance(a, list) else ([a], [b])
         exp = []
         for x, y in zip(al, bl):
-            da, db = level_to_db(x, u), level_to_db(y, u)
+            da, db = level_to_db(x, u), level_to_db(y, u2)
             if op == "-" and not da - db >= 0.0999:
                 return v.discard("sub-needs-a>b")
             p = 10 ** (da / 10) + 10 ** (db / 10) if op == "+" else 10 ** (da / 10) - 10 ** (db / 10)
             exp.append(db_to_level(10 * math.log10(p), u))
         try:
-            r = Quantity(a, u) + Quantity(b, u) if op == "+" else Quantity(a, u) - Quantity(b, u)
+            r = Quantity(a, u) + Quantity(b, u2) if op == "+" else Quantity(a, u) - Quantity(b, u2)
         except Exception as e:
-            return v.fail("sum-raised", f"Quantity({a!r},{u!r}) {op} Quantity({b!r},{u!r}) raised {e!r}")
+            return v.fail("sum-raised", f"Quantity({a!r},{u!r}) {op} Quantity({b!r},{u2!r}) raised {e!r}")
         got = np.atleast_1d(np.asarray(r.value(), dtype=float)).tolist()
         if len(got) != len(exp) or (isinstance(a, list)) != isinstance(r.value(), np.ndarray) or \
                 not all(close(g, e, 1e-8, 1e-8) for g, e in zip(got, exp)):
-            return v.fail("sum-value", f"Quantity({a!r},{u!r}) {op} Quantity({b!r},{u!r}) = {r.value()!r} {r.units()}, "
+            return v.fail("sum-value", f"Quantity({a!r},{u!r}) {op} Quantity({b!r},{u2!r}) = {r.value()!r} {r.units()}, "
                                        f"expected {exp!r} {u}")
         if r.units() != u:
             return v.fail("sum-units", f"result units {r.units()!r} != {u!r}")
         v.nt(True)
         if isinstance(a, list):
             v.label("sum_array")
+        if kind == "sum2":
+            v.label("sum_mixed_prefix")
         return
     for lv in case["vals"]:
         # lv is a level in dB; derive the input x in unit u and the expected output in unit w
@@ -297,7 +309,7 @@ def _check(case, v):
                 x = ref * 10 ** (lv / k) / pf
             exp = db_to_level(lv, _nohz(w))
         try:
-            got, q = _conv(x, u, w)
+            got, q = _conv(x, u, w, case.get("err"))
         except RepeatMismatch as e:
             return v.fail("value-repeat", str(e))
         except Exception as e:
@@ -313,5 +325,7 @@ def _check(case, v):
         if not lclose(float(back.value()), x):
             return v.fail("log-roundtrip", f"{x!r} {u} -> {w} -> {u} = {back.value()!r}")
     v.nt(any(lv not in (0.0,) for lv in case["vals"]))
+    if case.get("err"):
+        v.label("with_uncertainty")
     if u == w:
         v.label("identity")
